@@ -169,6 +169,14 @@ pub fn via_go(run: &'static Run) -> (u64, u64) {
                                 run.machinery_error(format!("{key}: hook H5 reported no limits"));
                                 return;
                             };
+                            // the command loop must arrive at the limits of the mover's own clock situation, whatever else the
+                            // line says about the other side
+                            match limits(white, rem, inc, mtg, oh, false) {
+                                Ok(direct) if direct != (soft, hard) => {
+                                    run.violation("go-limits-differ-from-clock", format!("go-limits-differ|{key}"), case.clone(), format!("{key}: the go command leads to limits {:?}, the mover's clock situation (remaining {rem}, increment {inc}, movestogo {mtg:?}, overhead {oh}) gives {:?}", (soft, hard), direct));
+                                }
+                                _ => {}
+                            }
                             let bound_us = (rem - oh) * 1000 / 2 + 1000;
                             if hard.as_micros() as u64 > bound_us {
                                 run.violation("hard-limit-too-large", format!("hard-limit-via-go|{key}"), case.clone(), format!("{key}: hard limit {hard:?} exceeds half of the mover's remaining time after overhead ({} ms)", (rem - oh) / 2));
@@ -185,6 +193,31 @@ pub fn via_go(run: &'static Run) -> (u64, u64) {
             run.violation("go-with-clocks-failed", format!("go-with-clocks-blocked|rem {rem} overhead {oh}"), J::obj(vec![("kind", J::s("clock-via-go")), ("overhead_ms", J::i(oh)), ("line", J::s(format!("(family for remaining {rem})")))]), "the command loop blocked or the helper thread died".into());
         }
     });
+    // an overstepped clock is reported with a negative number: the go must still be answered
+    {
+        let work = move || {
+            let mut d = Drv::new(1).unwrap();
+            for (pos, lines) in [
+                ("position fen 4k3/8/8/8/8/8/4P3/4K3 w - - 0 1", vec!["go wtime -200 btime 5000 winc 100 binc 100 depth 1", "go wtime -1 btime -1 depth 1", "go btime 5000 wtime -30000 movestogo 5 depth 1", "go movetime -5 depth 1"]),
+                ("position fen 4k3/4p3/8/8/8/8/8/4K3 b - - 0 1", vec!["go wtime 5000 btime -200 winc 100 binc -100 depth 1", "go btime -1 depth 1"]),
+            ] {
+                let _ = d.send(pos);
+                for line in lines {
+                    n.fetch_add(1, Ordering::Relaxed);
+                    let case = J::obj(vec![("kind", J::s("clock-via-go")), ("overhead_ms", J::i(0)), ("line", J::s(line))]);
+                    let r = d.send(line);
+                    let w = d.wait_search(std::time::Duration::from_secs(60));
+                    let bm = d.take().iter().filter(|l| l.starts_with("bestmove")).count();
+                    if r.is_err() || w != Wait::Finished || bm != 1 {
+                        run.violation("go-with-clocks-failed", format!("go-negative-clock|{line}"), case, format!("`{line}` (an overstepped clock): result {r:?}, search {w:?}, {bm} bestmove line(s)"));
+                    }
+                }
+            }
+        };
+        if crate::util::with_timeout(200, work).is_none() {
+            run.violation("go-with-clocks-failed", "go-negative-clock|blocked".into(), J::obj(vec![("kind", J::s("clock-via-go")), ("overhead_ms", J::i(0)), ("line", J::s("(negative clock family)"))]), "the command loop blocked".into());
+        }
+    }
     // the same clock situation phrased in every field order (and with extra blanks / a ponder-less `infinite`-free
     // mix of optional fields): the limits must not depend on the phrasing
     {
@@ -264,7 +297,8 @@ pub fn virtual_clock_runs(run: &Run) -> (u64, u64) {
     use crate::engine::search::PersistentState;
     use crate::session::{run_search, Env, GameSpec, Spec, Tc, DEFAULT_NODE_BUDGET};
     use crate::verif_hooks::Clock;
-    let positions = ["rnbqkbnr/pppppppp/8/8/8/8/PPPPPPPP/RNBQKBNR w KQkq - 0 1", "r3k2r/p1ppqpb1/bn2pnp1/3PN3/1p2P3/2N2Q1p/PPPBBPPP/R3K2R b KQkq - 0 1", "8/2p5/3p4/KP5r/1R3p1k/8/4P1P1/8 w - - 0 1"];
+    // the last two: capture-search explosions (the limit must also be observed inside one quiescence tree)
+    let positions = ["rnbqkbnr/pppppppp/8/8/8/8/PPPPPPPP/RNBQKBNR w KQkq - 0 1", "r3k2r/p1ppqpb1/bn2pnp1/3PN3/1p2P3/2N2Q1p/PPPBBPPP/R3K2R b KQkq - 0 1", "8/2p5/3p4/KP5r/1R3p1k/8/4P1P1/8 w - - 0 1", "q2k2q1/2nqn2b/1n1P1n1b/2rnr2Q/1NQ1QN1Q/3Q3B/2RQR2B/Q2K2Q1 w - - 0 1", "R6R/3Q4/1Q4Q1/4Q3/2Q4Q/Q4Q2/pp1Q4/kBNN1KB1 w - - 0 1"];
     let rems: Vec<u64> = if run.quick() { (200..=2000).step_by(300).collect() } else { (200..=2000).step_by(50).chain([5000, 60_000]).collect() };
     let mut items = vec![];
     for p in positions {
@@ -307,7 +341,7 @@ pub fn virtual_clock_runs(run: &Run) -> (u64, u64) {
         }
     });
     let a = n.load(Ordering::Relaxed);
-    run.family("VIRTUAL-CLOCK", &format!("3 positions x remaining {:?} ms x increment {{0,1000}} x movestogo {{none,1,40}} x overhead {{0,50}}; real search, clock = nodes x 1 microsecond", rems), a, nodes.load(Ordering::Relaxed) / 10_000, true, "virtual time at return < remaining");
+    run.family("VIRTUAL-CLOCK", &format!("5 positions (two capture-search explosions) x remaining {:?} ms x increment {{0,1000}} x movestogo {{none,1,40}} x overhead {{0,50}}; real search, clock = nodes x 1 microsecond", rems), a, nodes.load(Ordering::Relaxed) / 10_000, true, "virtual time at return < remaining");
     (a, a)
 }
 
